@@ -641,6 +641,10 @@ def comprehension(I, e, kind):
             d.keymap = getattr(it[2], 'name', None)
         return d
     l = AList(out)
+    if isinstance(it, tuple) and len(it) > 3 and it[0] == 'items' and it[3] == 'sorted':
+        l.sorted_source = True
+    if isinstance(it, AList) and getattr(it, 'sorted', False):
+        l.sorted_source = True
     if isinstance(it, AList) and it.unknown and not g.ifs:
         # same (unknown) length as the source list
         l.unknown = True
